@@ -100,6 +100,15 @@ Proof.
   repeat split; apply action_eqb_eq; assumption.
 Qed.
 
+(* every byte the printer leaves as it is between bars is a plain byte of the reader's symbol mode *)
+Lemma pipe_ok_raw b : b < 256 -> pipe_ok_byte b = true -> act T03 MSymbol b = AStrByte.
+Proof.
+  intros Hr H. apply action_eqb_eq.
+  assert (G : implb (pipe_ok_byte b) (action_eqb (act T03 MSymbol b) AStrByte) = true).
+  { clear H. revert b Hr. apply (forall_bytes (fun b => implb (pipe_ok_byte b) (action_eqb (act T03 MSymbol b) AStrByte))). vm_compute. reflexivity. }
+  rewrite H in G. exact G.
+Qed.
+
 (* characters *)
 Lemma high_byte_char b : 128 <= b -> b < 256 -> act T03 MChar b = ASkip.
 Proof.
